@@ -42,6 +42,14 @@ theorem EqOff.put_l (h : EqOff nw a b) {k0 : K} (hk0 : ¬ nw k0) (v : V) : EqOff
 theorem EqOff.put_r (h : EqOff nw a b) {k0 : K} (hk0 : ¬ nw k0) (v : V) : EqOff nw a (AMap.put b k0 v) := by
   intro k hk; rw [AMap.get_put, if_neg (fun (e : k0 = k) => hk0 (by rw [e]; exact hk))]; exact h k hk
 
+theorem EqOff.put_any (h : EqOff nw a b) (k0 : K) {v v' : V} (hv : nw k0 → v = v') :
+    EqOff nw (AMap.put a k0 v) (AMap.put b k0 v') := by
+  intro k hk
+  rw [AMap.get_put, AMap.get_put]
+  by_cases e : k0 = k
+  · rw [if_pos e, if_pos e, hv (by rw [e]; exact hk)]
+  · rw [if_neg e, if_neg e]; exact h k hk
+
 theorem get_erase_none {m : AMap.T K V} {k' : K} (h : AMap.get m k' = none) (k : K) :
     AMap.get (AMap.erase m k) k' = none := by
   rw [AMap.get_erase]; split
@@ -211,5 +219,448 @@ theorem MNt.eraseTx_g (h : MNt addrs P T N gc sc gd sd gt st) {k : TxId × Block
     · rw [if_neg e]; exact h.txN k' hn
 
 end mnt
+
+-- ------------------------------------------------------------------ the relation on stores
+
+/-- the buckets keyed by wallet id agree off `w` -/
+structure WKt (w : Wid) (gu su : AMap.T (Wid × TxId × Nat) BlockMeta) (gg sg : AMap.T GameKey Unit)
+    (ga sa : AMap.T (Wid × Bool × Addr) Nat) : Prop where
+  unspent : EqOff (fun k : Wid × TxId × Nat => k.1 ≠ w) su gu
+  game : EqOff (fun k : GameKey => k.wallet ≠ w) sg gg
+  adr : EqOff (fun k : Wid × Bool × Addr => k.1 ≠ w) sa ga
+
+def WK (w : Wid) (gi si : Store) : Prop := WKt w gi.unspent si.unspent gi.game si.game gi.addrs si.addrs
+
+def MN (addrs : List Addr) (P : CredKey → Addr → Prop) (T : TxId × BlockMeta → BlkId × Nat → Prop)
+    (N : TxId × BlockMeta → Prop) (gi si : Store) : Prop :=
+  MNt addrs P T N gi.credits si.credits gi.debits si.debits gi.txrecs si.txrecs
+
+/-- what the inner loops of Rollback never touch: `G`, `S` = the block buckets when the rollback starts -/
+def RS (w : Wid) (G S : AMap.T Nat (BlkId × List TxId)) (gi si : Store) : Prop :=
+  si.sync = gi.sync ∧ si.syncedTo = gi.syncedTo ∧ si.status = gi.status ∧
+  EqOff (fun w' : Wid => w' ≠ w) si.balance gi.balance ∧ gi.blocks = G ∧ si.blocks = S
+
+structure WR (w : Wid) (addrs : List Addr) (P : CredKey → Addr → Prop) (T : TxId × BlockMeta → BlkId × Nat → Prop)
+    (N : TxId × BlockMeta → Prop) (G S : AMap.T Nat (BlkId × List TxId)) (gi si : Store) : Prop where
+  wk : WK w gi si
+  mn : MN addrs P T N gi si
+  rs : RS w G S gi si
+
+/-- the working balances agree off `w` -/
+def BalR (w : Wid) (gb sb : Bals) : Prop := EqOff (fun w' : Wid => w' ≠ w) sb gb
+
+section wr
+variable {w : Wid} {addrs : List Addr} {P : CredKey → Addr → Prop} {T : TxId × BlockMeta → BlkId × Nat → Prop}
+  {N : TxId × BlockMeta → Prop} {G S : AMap.T Nat (BlkId × List TxId)} {gi si : Store}
+
+local macro "mined_rfl" : term => `(⟨rfl, rfl, rfl, rfl, rfl, rfl, rfl, rfl, rfl, rfl, rfl⟩)
+
+theorem WR.minedEq {gi' si' : Store} (h : WR w addrs P T N G S gi si) (hg : MinedEq gi gi') (hs : MinedEq si si') :
+    WR w addrs P T N G S gi' si' := by
+  obtain ⟨h1, h2, h3⟩ := h
+  refine ⟨?_, ?_, ?_⟩
+  · unfold WK at *
+    rw [hg.unspent, hs.unspent, hg.game, hs.game, hg.addrs, hs.addrs]; exact h1
+  · unfold MN at *
+    rw [hg.credits, hs.credits, hg.debits, hs.debits, hg.txrecs, hs.txrecs]; exact h2
+  · unfold RS at *
+    rw [hg.sync, hs.sync, hg.syncedTo, hs.syncedTo, hg.status, hs.status, hg.balance, hs.balance,
+      hg.blocks, hs.blocks]; exact h3
+
+theorem WR.minedEq_l {gi' : Store} (h : WR w addrs P T N G S gi si) (hg : MinedEq gi gi') :
+    WR w addrs P T N G S gi' si := h.minedEq hg (MinedEq.refl si)
+
+theorem WR.setUnspent (h : WR w addrs P T N G S gi si) {U U' : AMap.T (Wid × TxId × Nat) BlockMeta}
+    (hu : EqOff (fun k : Wid × TxId × Nat => k.1 ≠ w) U' U) :
+    WR w addrs P T N G S { gi with unspent := U } { si with unspent := U' } :=
+  ⟨⟨hu, h.wk.game, h.wk.adr⟩, h.mn, h.rs⟩
+
+theorem WR.setGame (h : WR w addrs P T N G S gi si) {U U' : AMap.T GameKey Unit}
+    (hu : EqOff (fun k : GameKey => k.wallet ≠ w) U' U) :
+    WR w addrs P T N G S { gi with game := U } { si with game := U' } :=
+  ⟨⟨h.wk.unspent, hu, h.wk.adr⟩, h.mn, h.rs⟩
+
+theorem WR.setAddrs (h : WR w addrs P T N G S gi si) {U U' : AMap.T (Wid × Bool × Addr) Nat}
+    (hu : EqOff (fun k : Wid × Bool × Addr => k.1 ≠ w) U' U) :
+    WR w addrs P T N G S { gi with addrs := U } { si with addrs := U' } :=
+  ⟨⟨h.wk.unspent, h.wk.game, hu⟩, h.mn, h.rs⟩
+
+theorem WR.setMined (h : WR w addrs P T N G S gi si) {gc sc : AMap.T CredKey Credit}
+    {gd sd : AMap.T CredKey (Nat × CredKey)} {gt st : AMap.T (TxId × BlockMeta) (BlkId × Nat)}
+    (hm : MNt addrs P T N gc sc gd sd gt st) :
+    WR w addrs P T N G S { gi with credits := gc, debits := gd, txrecs := gt }
+      { si with credits := sc, debits := sd, txrecs := st } :=
+  ⟨h.wk, hm, h.rs⟩
+
+-- ------------------------------------------------------------------ rollbackAddr
+
+theorem rollbackAddr_shape (s : Store) (w1 : Wid) (o : Out) (ch : Nat) :
+    rollbackAddr s w1 o ch = s ∨
+    rollbackAddr s w1 o ch = { s with addrs := AMap.put s.addrs (w1, o.cls.isStaking, o.addr) 0 } := by
+  unfold rollbackAddr
+  dsimp only
+  split
+  · split
+    · exact Or.inr rfl
+    · exact Or.inl rfl
+  · exact Or.inl rfl
+
+theorem wr_addr_l (h : WR w addrs P T N G S gi si) (o : Out) (ch : Nat) :
+    WR w addrs P T N G S (rollbackAddr gi w o ch) si := by
+  rcases rollbackAddr_shape gi w o ch with e | e
+  · rw [e]; exact h
+  · rw [e]; exact ⟨⟨h.wk.unspent, h.wk.game, h.wk.adr.put_r (fun hk => hk rfl) 0⟩, h.mn, h.rs⟩
+
+theorem wr_addr_r (h : WR w addrs P T N G S gi si) (o : Out) (ch : Nat) :
+    WR w addrs P T N G S gi (rollbackAddr si w o ch) := by
+  rcases rollbackAddr_shape si w o ch with e | e
+  · rw [e]; exact h
+  · rw [e]; exact ⟨⟨h.wk.unspent, h.wk.game, h.wk.adr.put_l (fun hk => hk rfl) 0⟩, h.mn, h.rs⟩
+
+theorem wr_addr_both (h : WR w addrs P T N G S gi si) {w1 : Wid} (hw : w1 ≠ w) (o : Out) (ch : Nat) :
+    WR w addrs P T N G S (rollbackAddr gi w1 o ch) (rollbackAddr si w1 o ch) := by
+  unfold rollbackAddr
+  dsimp only
+  rw [h.wk.adr (w1, o.cls.isStaking, o.addr) hw]
+  split
+  · split
+    · exact h.setAddrs (h.wk.adr.put_both _ _)
+    · exact h
+  · exact h
+
+-- ------------------------------------------------------------------ rollbackOwnedOut
+
+theorem ownedOut_l (h : WR w addrs P T N G S gi si) {gb sb : Bals} (hb : BalR w gb sb) {id : TxId} {blk : BlockMeta}
+    {i : Nat} {o : Out} {r : Store × Bals} (hg : rollbackOwnedOut id blk (gi, gb) i o w = .ok r) :
+    WR w addrs P T N G S r.1 si ∧ BalR w r.2 sb := by
+  unfold rollbackOwnedOut at hg
+  dsimp only at hg
+  split at hg
+  · split at hg
+    · cases hg
+    · cases hg
+      exact ⟨wr_addr_l (h.setUnspent (U' := si.unspent) (h.wk.unspent.erase_r (fun hk => hk rfl))) o _,
+        EqOff.put_r hb (fun hk => hk rfl) _⟩
+  · cases hg
+    exact ⟨wr_addr_l h o _, hb⟩
+
+theorem ownedOut_r (h : WR w addrs P T N G S gi si) {gb sb : Bals} (hb : BalR w gb sb) {id : TxId} {blk : BlockMeta}
+    {i : Nat} {o : Out} {r : Store × Bals} (hs : rollbackOwnedOut id blk (si, sb) i o w = .ok r) :
+    WR w addrs P T N G S gi r.1 ∧ BalR w gb r.2 := by
+  unfold rollbackOwnedOut at hs
+  dsimp only at hs
+  split at hs
+  · split at hs
+    · cases hs
+    · cases hs
+      exact ⟨wr_addr_r (h.setUnspent (U := gi.unspent) (h.wk.unspent.erase_l (fun hk => hk rfl))) o _,
+        EqOff.put_l hb (fun hk => hk rfl) _⟩
+  · cases hs
+    exact ⟨wr_addr_r h o _, hb⟩
+
+theorem ownedOut_both (h : WR w addrs P T N G S gi si) {gb sb : Bals} (hb : BalR w gb sb) {id : TxId} {blk : BlockMeta}
+    {i : Nat} {o : Out} {w1 : Wid} {r r' : Store × Bals}
+    (hg : rollbackOwnedOut id blk (gi, gb) i o w1 = .ok r) (hs : rollbackOwnedOut id blk (si, sb) i o w1 = .ok r') :
+    WR w addrs P T N G S r.1 r'.1 ∧ BalR w r.2 r'.2 := by
+  by_cases hw : w1 = w
+  · subst hw
+    obtain ⟨h1, hb1⟩ := ownedOut_l h hb hg
+    exact ownedOut_r h1 hb1 hs
+  · unfold rollbackOwnedOut at hg hs
+    dsimp only at hg hs
+    rw [h.wk.unspent (w1, id, i) hw] at hs
+    have eb : getBal sb w1 = getBal gb w1 := by unfold getBal; rw [hb w1 hw]
+    rw [eb] at hs
+    split at hg
+    · rename_i hx
+      rw [if_pos hx] at hs
+      split at hg
+      · cases hg
+      · rename_i hy
+        rw [if_neg hy] at hs
+        cases hg; cases hs
+        exact ⟨wr_addr_both (h.setUnspent (h.wk.unspent.erase_both _)) hw o _, EqOff.put_both hb _ _⟩
+    · rename_i hx
+      rw [if_neg hx] at hs
+      cases hg; cases hs
+      exact ⟨wr_addr_both h hw o _, hb⟩
+
+end wr
+
+-- ------------------------------------------------------------------ Rollback, function by function
+
+section ops
+variable {w : Wid} {addrs : List Addr} {P : CredKey → Addr → Prop} {T : TxId × BlockMeta → BlkId × Nat → Prop}
+  {N : TxId × BlockMeta → Prop} {G S : AMap.T Nat (BlkId × List TxId)} {gi si : Store} {c : Ctx}
+
+/-- the removed wallet's script hashes are `w`'s in the keystore view -/
+def OwnW (c : Ctx) (w : Wid) (addrs : List Addr) : Prop :=
+  ∀ a, addrs.contains a = true → ∃ ch, AMap.get c.own a = some (w, ch)
+
+/-- coinbase output, the ghost alone: the real store has no credit under the key -/
+theorem cbOut_g (hOwn : OwnW c w addrs) (h : WR w addrs P T N G S gi si) {gb sb : Bals} (hb : BalR w gb sb)
+    {id : TxId} {blk : BlockMeta} {i : Nat} {o : Out} {gl : List (TxId × Nat)}
+    {ga' : (Store × Bals) × List (TxId × Nat)}
+    (hP : ∀ sh, P ⟨id, blk, i⟩ sh → sh = o.addr) (hn : AMap.get si.credits ⟨id, blk, i⟩ = none)
+    (hg : rollbackCbOut c id blk ((gi, gb), gl) i o = .ok ga') :
+    WR w addrs P T N G S ga'.1.1 si ∧ BalR w ga'.1.2 sb := by
+  unfold rollbackCbOut at hg
+  dsimp only at hg
+  cases hc : AMap.get gi.credits ⟨id, blk, i⟩ with
+  | none => rw [hc] at hg; cases hg; exact ⟨h, hb⟩
+  | some cr =>
+    rw [hc] at hg
+    dsimp only at hg
+    split at hg
+    · cases hg
+    have hcon : addrs.contains cr.sh = true := by
+      rcases h.mn.cred ⟨id, blk, i⟩ with e | ⟨_, cr', e1, e2⟩
+      · rw [hn, hc] at e; cases e
+      · rw [hc] at e1; cases e1; exact e2
+    have hsh : cr.sh = o.addr := hP _ (h.mn.shOK _ _ hc)
+    obtain ⟨ch, hown⟩ := hOwn _ hcon
+    rw [hsh] at hown
+    rw [hown] at hg
+    dsimp only at hg
+    obtain ⟨r1, h2, h3⟩ := M_bind_ok hg
+    have h1 : WR w addrs P T N G S { gi with credits := AMap.erase gi.credits ⟨id, blk, i⟩ } si :=
+      ⟨h.wk, h.mn.eraseCred_g hn, h.rs⟩
+    obtain ⟨hr, hbr⟩ := ownedOut_l h1 hb h2
+    split at h3
+    · cases h3
+      exact ⟨⟨⟨hr.wk.unspent, hr.wk.game.erase_r (fun hk => hk rfl), hr.wk.adr⟩, hr.mn, hr.rs⟩, hbr⟩
+    · cases h3; exact ⟨hr, hbr⟩
+
+theorem cbOut_both (hOwn : OwnW c w addrs) (h : WR w addrs P T N G S gi si) {gb sb : Bals} (hb : BalR w gb sb)
+    {id : TxId} {blk : BlockMeta} {i : Nat} {o : Out} {gl sl : List (TxId × Nat)}
+    {ga' sa' : (Store × Bals) × List (TxId × Nat)}
+    (hP : ∀ sh, P ⟨id, blk, i⟩ sh → sh = o.addr)
+    (hg : rollbackCbOut c id blk ((gi, gb), gl) i o = .ok ga')
+    (hs : rollbackCbOut c id blk ((si, sb), sl) i o = .ok sa') :
+    WR w addrs P T N G S ga'.1.1 sa'.1.1 ∧ BalR w ga'.1.2 sa'.1.2 := by
+  cases hsc : AMap.get si.credits ⟨id, blk, i⟩ with
+  | none =>
+    have e : sa' = ((si, sb), sl) := by
+      unfold rollbackCbOut at hs; dsimp only at hs; rw [hsc] at hs; cases hs; rfl
+    rw [e]
+    exact cbOut_g hOwn h hb hP hsc hg
+  | some cr =>
+    have hgc : AMap.get gi.credits ⟨id, blk, i⟩ = some cr := by
+      rcases h.mn.cred ⟨id, blk, i⟩ with e | ⟨e, _⟩
+      · rw [← e]; exact hsc
+      · rw [hsc] at e; cases e
+    unfold rollbackCbOut at hg hs
+    dsimp only at hg hs
+    rw [hgc] at hg; rw [hsc] at hs
+    dsimp only at hg hs
+    split at hg
+    · cases hg
+    rename_i hraw
+    rw [if_neg hraw] at hs
+    have h1 : WR w addrs P T N G S { gi with credits := AMap.erase gi.credits ⟨id, blk, i⟩ }
+        { si with credits := AMap.erase si.credits ⟨id, blk, i⟩ } := ⟨h.wk, h.mn.eraseCred_both _, h.rs⟩
+    cases ho : AMap.get c.own o.addr with
+    | none => rw [ho] at hg hs; cases hg; cases hs; exact ⟨h1, hb⟩
+    | some wc =>
+      obtain ⟨w1, ch⟩ := wc
+      rw [ho] at hg hs
+      dsimp only at hg hs
+      obtain ⟨r1, g2, g3⟩ := M_bind_ok hg
+      obtain ⟨r2, s2, s3⟩ := M_bind_ok hs
+      obtain ⟨hr, hbr⟩ := ownedOut_both h1 hb g2 s2
+      split at g3
+      · rename_i hgm
+        rw [if_pos hgm] at s3
+        cases g3; cases s3
+        exact ⟨hr.setGame (hr.wk.game.erase_both _), hbr⟩
+      · rename_i hgm
+        rw [if_neg hgm] at s3
+        cases g3; cases s3; exact ⟨hr, hbr⟩
+
+/-- ordinary output, the ghost alone -/
+theorem out_g (hOwn : OwnW c w addrs) (h : WR w addrs P T N G S gi si) {gb sb : Bals} (hb : BalR w gb sb)
+    {id : TxId} {blk : BlockMeta} {i : Nat} {o : Out} {r : Store × Bals}
+    (hP : ∀ sh, P ⟨id, blk, i⟩ sh → sh = o.addr) (hn : AMap.get si.credits ⟨id, blk, i⟩ = none)
+    (hg : rollbackOut c id blk (gi, gb) i o = .ok r) :
+    WR w addrs P T N G S r.1 si ∧ BalR w r.2 sb := by
+  unfold rollbackOut at hg
+  dsimp only at hg
+  cases hc : AMap.get gi.credits ⟨id, blk, i⟩ with
+  | none => rw [hc] at hg; cases hg; exact ⟨h, hb⟩
+  | some cr =>
+    rw [hc] at hg
+    dsimp only at hg
+    split at hg
+    · cases hg
+    have hcon : addrs.contains cr.sh = true := by
+      rcases h.mn.cred ⟨id, blk, i⟩ with e | ⟨_, cr', e1, e2⟩
+      · rw [hn, hc] at e; cases e
+      · rw [hc] at e1; cases e1; exact e2
+    have hsh : cr.sh = o.addr := hP _ (h.mn.shOK _ _ hc)
+    obtain ⟨ch, hown⟩ := hOwn _ hcon
+    rw [hsh] at hown
+    rw [hown] at hg
+    dsimp only at hg
+    obtain ⟨r1, h2, h3⟩ := M_bind_ok hg
+    have h1 : WR w addrs P T N G S
+        { gi with credits := AMap.erase gi.credits ⟨id, blk, i⟩,
+                  pendCred := AMap.put gi.pendCred (id, i) { cr with spentBy := none } } si :=
+      ⟨h.wk, h.mn.eraseCred_g hn, h.rs⟩
+    obtain ⟨hr, hbr⟩ := ownedOut_l h1 hb h2
+    split at h3
+    · cases h3
+      exact ⟨⟨⟨hr.wk.unspent, hr.wk.game.erase_r (fun hk => hk rfl), hr.wk.adr⟩, hr.mn, hr.rs⟩, hbr⟩
+    · cases h3; exact ⟨hr, hbr⟩
+
+theorem out_both (hOwn : OwnW c w addrs) (h : WR w addrs P T N G S gi si) {gb sb : Bals} (hb : BalR w gb sb)
+    {id : TxId} {blk : BlockMeta} {i : Nat} {o : Out} {r r' : Store × Bals}
+    (hP : ∀ sh, P ⟨id, blk, i⟩ sh → sh = o.addr)
+    (hg : rollbackOut c id blk (gi, gb) i o = .ok r) (hs : rollbackOut c id blk (si, sb) i o = .ok r') :
+    WR w addrs P T N G S r.1 r'.1 ∧ BalR w r.2 r'.2 := by
+  cases hsc : AMap.get si.credits ⟨id, blk, i⟩ with
+  | none =>
+    have e : r' = (si, sb) := by
+      unfold rollbackOut at hs; dsimp only at hs; rw [hsc] at hs; cases hs; rfl
+    rw [e]
+    exact out_g hOwn h hb hP hsc hg
+  | some cr =>
+    have hgc : AMap.get gi.credits ⟨id, blk, i⟩ = some cr := by
+      rcases h.mn.cred ⟨id, blk, i⟩ with e | ⟨e, _⟩
+      · rw [← e]; exact hsc
+      · rw [hsc] at e; cases e
+    unfold rollbackOut at hg hs
+    dsimp only at hg hs
+    rw [hgc] at hg; rw [hsc] at hs
+    dsimp only at hg hs
+    split at hg
+    · cases hg
+    rename_i hraw
+    rw [if_neg hraw] at hs
+    have h1 : WR w addrs P T N G S
+        { gi with credits := AMap.erase gi.credits ⟨id, blk, i⟩,
+                  pendCred := AMap.put gi.pendCred (id, i) { cr with spentBy := none } }
+        { si with credits := AMap.erase si.credits ⟨id, blk, i⟩,
+                  pendCred := AMap.put si.pendCred (id, i) { cr with spentBy := none } } :=
+      ⟨h.wk, h.mn.eraseCred_both _, h.rs⟩
+    cases ho : AMap.get c.own o.addr with
+    | none => rw [ho] at hg hs; cases hg; cases hs; exact ⟨h1, hb⟩
+    | some wc =>
+      obtain ⟨w1, ch⟩ := wc
+      rw [ho] at hg hs
+      dsimp only at hg hs
+      obtain ⟨r1, g2, g3⟩ := M_bind_ok hg
+      obtain ⟨r2, s2, s3⟩ := M_bind_ok hs
+      obtain ⟨hr, hbr⟩ := ownedOut_both h1 hb g2 s2
+      split at g3
+      · rename_i hgm
+        rw [if_pos hgm] at s3
+        cases g3; cases s3
+        exact ⟨⟨⟨hr.wk.unspent, hr.wk.game.erase_both _, hr.wk.adr⟩, hr.mn, hr.rs⟩, hbr⟩
+      · rename_i hgm
+        rw [if_neg hgm] at s3
+        cases g3; cases s3; exact ⟨hr, hbr⟩
+
+/-- input, the ghost alone: the real store has no debit under the key (then it has not the credit either) -/
+theorem in_g (hOwn : OwnW c w addrs) (h : WR w addrs P T N G S gi si) {gb sb : Bals} (hb : BalR w gb sb)
+    {id : TxId} {blk : BlockMeta} {cur : Nat} {i : Inp} {r : Store × Bals}
+    (hn : AMap.get si.debits ⟨id, blk, cur⟩ = none)
+    (hg : rollbackIn c id blk (gi, gb) cur i = .ok r) :
+    WR w addrs P T N G S r.1 si ∧ BalR w r.2 sb := by
+  unfold rollbackIn at hg
+  dsimp only at hg
+  cases hd : AMap.get gi.debits ⟨id, blk, cur⟩ with
+  | none => rw [hd] at hg; cases hg; exact ⟨⟨h.wk, h.mn, h.rs⟩, hb⟩
+  | some d =>
+    obtain ⟨amt, ck⟩ := d
+    rw [hd] at hg
+    dsimp only at hg
+    have hsc : AMap.get si.credits ck = none := h.mn.debGone _ _ hd hn
+    cases hcr : AMap.get gi.credits ck with
+    | none => rw [hcr] at hg; cases hg
+    | some cr =>
+      rw [hcr] at hg
+      dsimp only at hg
+      have hcon : addrs.contains cr.sh = true := by
+        rcases h.mn.cred ck with e | ⟨_, cr', e1, e2⟩
+        · rw [hsc, hcr] at e; cases e
+        · rw [hcr] at e1; cases e1; exact e2
+      obtain ⟨ch, hown⟩ := hOwn _ hcon
+      rw [hown] at hg
+      dsimp only at hg
+      have hm : MNt addrs P T N (AMap.put gi.credits ck { cr with spent := false, spentBy := none }) si.credits
+          (AMap.erase gi.debits ⟨id, blk, cur⟩) si.debits gi.txrecs si.txrecs :=
+        (h.mn.eraseDeb_g hn).putCred_g hcr hsc rfl hcon
+      have hu := h.wk.unspent.put_r (k0 := (w, i.tx, i.idx)) (fun hk => hk rfl) ck.blk
+      split at hg
+      · split at hg
+        · cases hg
+        · cases hg
+          exact ⟨⟨⟨hu, (h.wk.game.erase_r (fun hk => hk rfl)).put_r (fun hk => hk rfl) _, h.wk.adr⟩, hm, h.rs⟩,
+            EqOff.put_r hb (fun hk => hk rfl) _⟩
+      · cases hg
+        exact ⟨⟨⟨hu, h.wk.game, h.wk.adr⟩, hm, h.rs⟩, EqOff.put_r hb (fun hk => hk rfl) _⟩
+
+theorem in_both (hOwn : OwnW c w addrs) (h : WR w addrs P T N G S gi si) {gb sb : Bals} (hb : BalR w gb sb)
+    {id : TxId} {blk : BlockMeta} {cur : Nat} {i : Inp} {r r' : Store × Bals}
+    (hg : rollbackIn c id blk (gi, gb) cur i = .ok r) (hs : rollbackIn c id blk (si, sb) cur i = .ok r') :
+    WR w addrs P T N G S r.1 r'.1 ∧ BalR w r.2 r'.2 := by
+  cases hsd : AMap.get si.debits ⟨id, blk, cur⟩ with
+  | none =>
+    have e : r' = ({ si with pendIns := putPendIn si.pendIns (i.tx, i.idx) id }, sb) := by
+      unfold rollbackIn at hs; dsimp only at hs; rw [hsd] at hs; cases hs; rfl
+    rw [e]
+    obtain ⟨h1, h2⟩ := in_g hOwn h hb hsd hg
+    exact ⟨⟨h1.wk, h1.mn, h1.rs⟩, h2⟩
+  | some d =>
+    obtain ⟨amt, ck⟩ := d
+    have hgd : AMap.get gi.debits ⟨id, blk, cur⟩ = some (amt, ck) := by
+      rcases h.mn.deb ⟨id, blk, cur⟩ with e | e
+      · rw [← e]; exact hsd
+      · rw [hsd] at e; cases e
+    unfold rollbackIn at hg hs
+    dsimp only at hg hs
+    rw [hgd] at hg; rw [hsd] at hs
+    dsimp only at hg hs
+    cases hcr : AMap.get gi.credits ck with
+    | none => rw [hcr] at hg; cases hg
+    | some cr =>
+      cases hscr : AMap.get si.credits ck with
+      | none => rw [hscr] at hs; cases hs
+      | some cr2 =>
+        have e2 : cr2 = cr := by
+          rcases h.mn.cred ck with e | ⟨e, _⟩
+          · rw [hscr, hcr] at e; cases e; rfl
+          · rw [hscr] at e; cases e
+        subst e2
+        rw [hcr] at hg; rw [hscr] at hs
+        dsimp only at hg hs
+        have hm : MNt addrs P T N (AMap.put gi.credits ck { cr2 with spent := false, spentBy := none })
+            (AMap.put si.credits ck { cr2 with spent := false, spentBy := none })
+            (AMap.erase gi.debits ⟨id, blk, cur⟩) (AMap.erase si.debits ⟨id, blk, cur⟩) gi.txrecs si.txrecs :=
+          (h.mn.eraseDeb_both _).putCred_both hcr hscr rfl
+        cases ho : AMap.get c.own cr2.sh with
+        | none => rw [ho] at hg hs; cases hg; cases hs; exact ⟨⟨h.wk, hm, h.rs⟩, hb⟩
+        | some wc =>
+          obtain ⟨w1, ch⟩ := wc
+          rw [ho] at hg hs
+          dsimp only at hg hs
+          have hu := h.wk.unspent.put_both (w1, i.tx, i.idx) ck.blk
+          have hbb : BalR w (AMap.put gb w1 (getBal gb w1 + cr2.amt)) (AMap.put sb w1 (getBal sb w1 + cr2.amt)) :=
+            EqOff.put_any hb w1 (fun hw => by unfold getBal; rw [hb w1 hw])
+          split at hg
+          · rename_i hcl
+            rw [if_pos hcl] at hs
+            split at hg
+            · cases hg
+            · split at hs
+              · cases hs
+              · cases hg; cases hs
+                exact ⟨⟨⟨hu, (h.wk.game.erase_both _).put_both _ _, h.wk.adr⟩, hm, h.rs⟩, hbb⟩
+          · rename_i hcl
+            rw [if_neg hcl] at hs
+            cases hg; cases hs
+            exact ⟨⟨⟨hu, h.wk.game, h.wk.adr⟩, hm, h.rs⟩, hbb⟩
+
+end ops
 
 end MW.Lemmas.RemoveSimW
